@@ -4,7 +4,7 @@
 //! API, so any report comes from code the decoder reaches (deku / bitvec
 //! `unsafe`), not from the harness.
 //!
-//!   vsan frames <seed> <shard> <nshards> <per_class>    decode+Debug+Display+calculate+pairing+tracker
+//!   vsan frames <seed> <shard> <nshards> <per_class> [stride]   decode+Debug+Display+calculate+pairing+tracker
 //!   vsan reader <seed> <shard> <nshards> <per_class>    from_reader under hostile schedules
 
 #[path = "../../vmon/src/gen.rs"]
@@ -70,6 +70,8 @@ fn main() {
     let shard: usize = a.get(3).and_then(|s| s.parse().ok()).unwrap_or(0);
     let nshards: usize = a.get(4).and_then(|s| s.parse().ok()).unwrap_or(1);
     let per: usize = a.get(5).and_then(|s| s.parse().ok()).unwrap_or(1);
+    // only every `stride`-th class (the slow interpreters cannot afford all of them)
+    let stride: usize = a.get(6).and_then(|s| s.parse().ok()).unwrap_or(1).max(1);
     let classes = gen::all_classes();
     let mut ok = 0u64;
     let mut err = 0u64;
@@ -78,7 +80,7 @@ fn main() {
     let mut pool: Vec<Altitude> = Vec::new();
     let mut planes = Airplanes::new();
     for (ci, cs) in classes.iter().enumerate() {
-        if ci % nshards != shard {
+        if ci % stride != 0 || (ci / stride) % nshards != shard {
             continue;
         }
         let mut r = Rng::derive(seed, "vsan", ci as u64);
